@@ -417,6 +417,7 @@ func cmdCorr(seed uint64, n int, exh int) {
 	var metas []meta
 	for li, l := range lists {
 		data := renderList(l)
+		assertTrail(l, data)
 		ls := listString(l)
 		cfgs := allCfgs
 		if len(l) >= 3 && li >= 0 && exh >= 3 && len(lists) > 20000 {
@@ -435,6 +436,8 @@ func cmdCorr(seed uint64, n int, exh int) {
 			fmt.Fprintln(out, failLine(f, "cfg:"+m.cfg+" shapes:"+m.shapes+" hex:"+hx.Hex(jobs[i].data), "synthesized shape list"))
 		}
 	}
+	// T: the trailing index (mfro -> mfra -> tfra look-back under the ISM flag)
+	corrTrail(r, n/8)
 	// C: count-field inflation of the table boxes (the prologues modelled in coq/c04/C04AllocModel.v)
 	corrCounts(r, n/2)
 	fmt.Fprintf(out, "STATS\t%d\t%d\t%d\t%d\n", rstats.ns, rstats.n, rstats.alloc, rstats.restarts)
